@@ -176,7 +176,87 @@ class Repo:
         self._index()
 
     # ------------------------------------------------------------------ loading
+    def _canon_context(self) -> None:
+        """Package-wide facts CANON needs before it touches any module: which function names differ from the
+        reference (those are never assumed pure) and the parameter lists of uniquely named callables."""
+        from .canon import set_context
+        from .reference import reference_tree
+
+        changed: set = set()
+        sigs: Dict[str, Optional[List[str]]] = {}
+
+        def note_sig(name: str, params: Optional[List[str]]):
+            if name in sigs and sigs[name] != params:
+                sigs[name] = None
+            elif name not in sigs:
+                sigs[name] = params
+
+        def fparams(fn, drop_first: bool) -> Optional[List[str]]:
+            a = fn.args
+            if a.vararg or a.kwarg or a.posonlyargs:
+                return None
+            ps = [x.arg for x in a.args] + [x.arg for x in a.kwonlyargs]
+            return ps[1:] if drop_first and ps else ps
+
+        def defs_of(tree) -> Dict[str, str]:
+            out = {}
+            for st in tree.body:
+                if isinstance(st, (ast.FunctionDef, ast.AsyncFunctionDef)):
+                    out[st.name] = ast.dump(st, annotate_fields=False, include_attributes=False)
+                elif isinstance(st, ast.ClassDef):
+                    for sub in st.body:
+                        if isinstance(sub, (ast.FunctionDef, ast.AsyncFunctionDef)):
+                            out[f"{st.name}.{sub.name}"] = ast.dump(sub, annotate_fields=False, include_attributes=False)
+            return out
+
+        for dirpath, dirnames, filenames in os.walk(self.pkg_dir):
+            dirnames[:] = sorted(d for d in dirnames if d != "__pycache__")
+            for fn in sorted(filenames):
+                if not fn.endswith(".py"):
+                    continue
+                path = os.path.join(dirpath, fn)
+                rel = os.path.relpath(path, self.pkg_dir)
+                parts = rel[:-3].split(os.sep)
+                is_pkg = parts[-1] == "__init__"
+                if is_pkg:
+                    parts = parts[:-1]
+                name = ".".join(parts)
+                relroot = os.path.relpath(path, self.root)
+                try:
+                    src = self.overrides[relroot] if relroot in self.overrides else open(path, "r", encoding="utf-8").read()
+                    tree = ast.parse(src)
+                except (SyntaxError, OSError):
+                    continue
+                live = defs_of(tree)
+                ref_tree = reference_tree(name, is_pkg)
+                ref = defs_of(ref_tree) if ref_tree is not None else {}
+                for q, dump in live.items():
+                    if ref.get(q) != dump:
+                        changed.add(q.split(".")[-1])
+                for q in ref:
+                    if q not in live:
+                        changed.add(q.split(".")[-1])
+                for st in tree.body:
+                    if isinstance(st, (ast.FunctionDef, ast.AsyncFunctionDef)):
+                        note_sig(st.name, fparams(st, False))
+                    elif isinstance(st, ast.ClassDef):
+                        init = next((x for x in st.body if isinstance(x, ast.FunctionDef) and x.name == "__init__"), None)
+                        is_dc = any("dataclass" in ast.dump(d) for d in st.decorator_list)
+                        if init is not None:
+                            note_sig(st.name, fparams(init, True))
+                        elif is_dc and not [b for b in st.bases if not (isinstance(b, ast.Name) and b.id in ("Protocol", "Gate", "Operation", "Generic")) and not isinstance(b, ast.Subscript)]:
+                            note_sig(st.name, [x.target.id for x in st.body if isinstance(x, ast.AnnAssign) and isinstance(x.target, ast.Name)])
+                        else:
+                            note_sig(st.name, None)
+                        for sub in st.body:
+                            if isinstance(sub, (ast.FunctionDef, ast.AsyncFunctionDef)) and sub.name != "__init__":
+                                deco = {getattr(d, "id", getattr(d, "attr", "")) for d in sub.decorator_list}
+                                note_sig(sub.name, fparams(sub, "staticmethod" not in deco))
+        set_context(changed, sigs)
+
     def _load(self) -> None:
+        if os.environ.get("SA_NO_CANON") != "1":
+            self._canon_context()
         for dirpath, dirnames, filenames in os.walk(self.pkg_dir):
             dirnames[:] = sorted(d for d in dirnames if d != "__pycache__")
             for fn in sorted(filenames):
